@@ -11,7 +11,7 @@ PID = "C10"
 def rdb_hostile(rng, i):
     """a library-made partitioned disk / hardfile whose RDSK/PART/FSHD/LSEG/root fields are corrupted"""
     hx = gen.hx
-    if rng.random() < 0.4:
+    if i % 3 == 2:
         size = rng.choice([3600, 4067, 9000])
         pre = [f"newdev 0 {size} 1 1", "clock 2018 1 1 1 1 1", f"mkhdf 0 {hx(b'hf')} {rng.randrange(8)}", "mount 0 0 0",
                f"mkdir 0 0 {hx(b'd')}", f"open 1 0 0 {hx(b'f')} 2", "write 1 40000 1", "close 1", "unmount 0 0", "closedev 0"]
@@ -21,7 +21,13 @@ def rdb_hostile(rng, i):
                "closedev 0", "opendev 0 0", "mount 0 0 0", f"mkdir 0 0 {hx(b'd')}", f"open 1 0 0 {hx(b'f')} 2", "write 1 40000 1", "close 1", "unmount 0 0", "closedev 0"]
         blocks = [0, 0, 1, 1, 2, 3, 4, 64 + 1440, 64 + 1441]; nparts = 2
     muts = []
-    for _ in range(rng.choice([1, 1, 2, 3])):
+    if nparts == 2:
+        # systematic part: every (RDB block, header/list field) pair is hit in turn (RDSK 0, PART 1 2, FSHD 3, LSEG 4)
+        combos = [(b, off) for b in (0, 1, 2, 3, 4) for off in (0, 4, 8, 16, 0x1c, 0x20, 0x24, 0x48, 0x84, 0x90)]
+        b, off = combos[i % len(combos)]
+        val = rng.choice([0, 1, 3, 4, 0xffffffff, 0x7fffffff, 0x80000000, rng.randrange(2**32), 100000, 0x44414d4e])
+        muts.append(f"pokeimg 0 {b * 512 + off} {struct.pack('>I', val).hex()}")
+    for _ in range(rng.choice([0, 1, 1, 2]) if muts else rng.choice([1, 1, 2, 3])):
         b = rng.choice(blocks)
         off = rng.choice([0, 4, 8, 16, 0x1c, 0x20, 0x24, 0x40, 0x44, 0x48, 0x84, 0x90, 0xa4, 0xa8, 0x48, 0x13c, 0x1a0, 0x1b0, 0x1f8, 0x1fc])
         val = rng.choice([0, 1, 2, 3, 0xffffffff, 0xfffffffe, 0x7fffffff, 0x80000000, rng.randrange(2**32), b, 5, 200, 100000])
@@ -45,7 +51,7 @@ def run(res):
         ops = ["readlimit 300000"] + rdb_hostile(vlib.rng_for(res.seed, f"C10rdb/{i}"), i)
         cb, paths, tie, san, crash, fault = hist.run_plain(exe, ops)
         return dict(ops=ops, cb=cb, tie=tie, san=san, crash=crash, fault=fault)
-    with ThreadPoolExecutor(12) as ex: rdb = list(ex.map(one, range(n // 3)))
+    with ThreadPoolExecutor(12) as ex: rdb = list(ex.map(one, range(max(n // 3, 76))))
     bad, ties = [], []
     for r in results:
         res.note_case(("img", tuple(r["muts"])), None)
